@@ -400,6 +400,27 @@ func runC17(c *ctx) {
 				c.violation(idx, "c17-unexpected-status", fmt.Sprintf("%s %s %v: HTTP %d", wname, method, cw.describe(chain), code), nil)
 			}
 		}
+		// assembling a shared file: the whole content is served only through a transitive share (and a valid chain)
+		for _, sid := range shares {
+			sb := cw.blobs[sid-1]
+			if sb.target < 1 || sb.target > n || cw.blobs[sb.target-1].kind != "file" {
+				continue
+			}
+			chain := []int{sid, sb.target}
+			url := "http://verif.invalid/" + cw.blobs[sb.target-1].ref.String() + "?via=" + sb.ref.String() + "&assemble=1"
+			rec := httptest.NewRecorder()
+			cw.h.ServeHTTP(rec, httptest.NewRequest("GET", url, nil))
+			body, _ := io.ReadAll(rec.Result().Body)
+			allowed := cw.validChain(chain) && sb.transitive
+			c.rep.SpecChecks++
+			c.count("assemble", fmt.Sprintf("transitive=%v allowed=%v -> %d", sb.transitive, allowed, rec.Code))
+			switch {
+			case rec.Code == 200 && !allowed:
+				c.violation(-1, "c17-served-without-valid-chain", fmt.Sprintf("%s GET %v with assemble=1: the file's contents (%d bytes) were served although the share is not a live transitive share", wname, cw.describe(chain), len(body)), nil)
+			case allowed && rec.Code != 200:
+				c.violation(-1, "c17-valid-chain-refused", fmt.Sprintf("%s GET %v with assemble=1: a live transitive share of a file was answered %d", wname, cw.describe(chain), rec.Code), nil)
+			}
+		}
 		// every chain of length 1 and 2; length 3 starting at a share
 		for a := 1; a <= n+1; a++ {
 			try("GET", []int{a}, true)
